@@ -52,7 +52,7 @@ func VerifC03OriginFaults() {
 	p := NewProxy()
 	p.SetRoundTripper(o)
 	p.SetResponseModifier(rm)
-	p.handleLoop(conn) // a Go panic anywhere in here is reported by the engine
+	serveConn(p, conn) // a Go panic anywhere in here is reported by the engine
 
 	out := conn.out.Bytes()
 	br := bufio.NewReader(bytes.NewReader(out))
@@ -105,7 +105,7 @@ func VerifC03ClientBytes() {
 	}
 	p := NewProxy()
 	p.SetRoundTripper(o)
-	p.handleLoop(conn)
+	serveConn(p, conn)
 	vf.Assert(conn.closed >= 1, "connection-closed-at-the-end")
 	vf.Reach("done")
 }
